@@ -128,10 +128,14 @@ func (u *Unit) regM(m *types.Map) (string, string, string) {
 
 // current heap term for a key in a state (entry heap if never written)
 func (u *Unit) heapOf(s *State, key string) string {
-	if h, ok := s.heap[key]; ok {
-		return h
+	h, ok := s.heap[key]
+	if !ok {
+		h = u.entryHeap(key)
 	}
-	return u.entryHeap(key)
+	if u.readLog != nil {
+		u.readLog[h] = u.heapSort(key)
+	}
+	return h
 }
 
 func (u *Unit) entryHeap(key string) string {
@@ -229,6 +233,30 @@ func (u *Unit) storeAddr(s *State, a *Val, v string) {
 	cell := u.sel1(h, a.Ref)
 	nc := u.updSels(cell, a.Sels, v)
 	s.heap[a.Heap] = u.nameHeap(a.Heap, fmt.Sprintf("(store %s %s %s)", h, a.Ref, nc))
+}
+
+// closedPre: a reference stored in memory that existed at entry, as it was at entry, denotes an object
+// that existed at entry (closed pre-state heap)
+func (u *Unit) closedPre(a *Val, ty types.Type) {
+	var get func(t string) string
+	switch ty.Underlying().(type) {
+	case *types.Pointer, *types.Map, *types.Chan, *types.Signature:
+		get = func(t string) string { return t }
+	case *types.Slice:
+		get = func(t string) string { return "(sdata " + t + ")" }
+	case *types.Interface:
+		_, ub := u.w.boxFn("Ref")
+		get = func(t string) string { return "(" + ub + " (ival " + t + "))" }
+	default:
+		return
+	}
+	t0 := u.applySels(fmt.Sprintf("(select %s %s)", u.entryHeap(a.Heap), a.Ref), a.Sels)
+	ck := "closed:" + t0
+	if u.frameDone[ck] {
+		return
+	}
+	u.frameDone[ck] = true
+	u.fact(implies(fmt.Sprintf("(< (birth %s) %s)", a.Ref, u.entryNow), fmt.Sprintf("(< (birth %s) %s)", get(t0), u.entryNow)))
 }
 
 // addrOfPtr turns a pointer value into an address
